@@ -58,7 +58,7 @@ fn check_merge(h: &History, nodes: &[usize], t: &mut Tally) -> Vec<(String, Stri
     t.transitions += 1;
     ruma_state_res::verif_order::set_script(vec![]);
     let real = resolve_real(h.v, &h.store, &sets, &chains);
-    let room = if h.store.evs.contains_key("$b2:s1") { "roomA" } else { "roomB" };
+    let room = format!("room{}", h.base_kind);
     let conflicted = sets.iter().skip(1).any(|s| *s != sets[0]);
     match real {
         Err(p) => vec![(format!("panic/{}", p.file()), p.text)],
@@ -269,8 +269,7 @@ fn replay(case: &Value) -> Vec<(String, String)> {
         return sort_case(s["n"].as_u64().unwrap() as usize, s["mask"].as_u64().unwrap() as u32, &perm, &power, &l("ts"), &mut t);
     }
     let hj = &case["history"];
-    let trail: Vec<Action> = hj["trail"].as_array().unwrap().iter().map(Action::from_json).collect();
-    let Some(h) = History::from_trail(hj["v"].as_u64().unwrap() as u8, hj["base_with_power_levels"].as_bool().unwrap(), &trail) else {
+    let Some(h) = History::from_json_trail(hj) else {
         return vec![("replay/history-not-reproducible".into(), "an action of the trail is no longer accepted".into())];
     };
     let nodes: Vec<usize> = case["merge"].as_array().unwrap().iter().map(|x| x.as_u64().unwrap() as usize).collect();
@@ -283,52 +282,63 @@ fn main() {
         replay_and_exit("C07", p, replay);
     }
     let report = Report::new("C07", "model_checking", &args);
-    let (depth, triple_depth, versions, templates): (usize, usize, Vec<u8>, Vec<usize>) = match args.tier {
-        Tier::Quick => (3, 2, vec![11], (0..TEMPLATES.len()).collect()),
-        Tier::Thorough => (4, 4, vec![11, 6, 2], vec![0, 1, 2, 3, 4, 6, 7, 9, 10, 13]),
+    // passes: (templates, depth, timestamp classes, depth up to which triples are merged, versions, base rooms)
+    let all: Vec<usize> = (0..14).collect();
+    let all17: Vec<usize> = (0..TEMPLATES.len()).collect();
+    type Pass = (Vec<usize>, usize, Vec<u8>, usize, Vec<u8>, Vec<char>);
+    let passes: Vec<Pass> = match args.tier {
+        Tier::Quick => vec![
+            (all.clone(), 3, vec![0, 1, 2], 2, vec![11], vec!['A', 'B']),
+            // start from a non-initial state: room C already contains an abandoned, merged power-levels fork
+            (all17.clone(), 2, vec![0, 1, 2], 2, vec![11], vec!['C']),
+        ],
+        Tier::Thorough => vec![
+            (vec![0, 1, 2, 3, 4, 6, 7, 9, 10, 13], 4, vec![0, 1, 2], 4, vec![11, 6, 2], vec!['A', 'B']),
+            (all.clone(), 3, vec![0, 1, 2], 3, vec![11, 6, 2], vec!['A', 'B']),
+            (all17.clone(), 3, vec![0, 1, 2], 3, vec![11, 6], vec!['C']),
+            (vec![14, 15, 16, 9, 13, 11], 5, vec![2], 2, vec![11], vec!['A']),
+        ],
     };
     report.set_rule(&format!(
-        "S: every room history reachable by appending <= {depth} events (templates {templates:?} of 14: power-level changes by creator/mod, \
-         ban, kick, join, leave, join-rule changes, topic/name by mod/user/creator; prev = every 1- or 2-subset of base tip + appended nodes \
-         that is not an ancestor pair; timestamp earlier than all / equal to prev / later) to base room A (with power levels) and B (without), \
-         room versions {versions:?}; an event exists only if the real auth_check accepts it; after each append every 2-subset (3-subset up to \
-         depth {triple_depth}) of {{mid-base node, base tip, appended nodes}} containing the new node is merged by the real resolve and the \
-         reference. P: all DAGs on 4 nodes x 24 relabelings x 6^4 (power,ts) keys and all DAGs on 5 nodes x relabelings x 96 key vectors \
-         for lexicographical_topological_sort vs naive Kahn. state = one history / one sort input; transition = one real resolve / sort call; \
-         non-trivial = merge of non-identical state sets"
+        "S: passes (templates of 17, depth, timestamp classes, triple depth, room versions, base rooms) = {passes:?}: every room history reachable by appending \
+         <= depth events from the pass's templates (power-level changes by creator/mod, ban, kick, join, leave, join-rule changes, topic/name by \
+         mod/user/creator; prev = every 1- or 2-subset of base tip + appended nodes that is not an ancestor pair; timestamp earlier than all / \
+         equal to prev / later) to base room A (with power levels), B (without) or C (A followed by an abandoned power-levels fork, a topic under it, a competing power-levels event and a merging power-levels event); an event exists only if the real auth_check accepts it; after \
+         each append every 2-subset (3-subset up to the triple depth) of {{mid-base node, base tip, appended nodes}} containing the new node is \
+         merged by the real resolve and the reference. P: all DAGs on 4 nodes x 24 relabelings x 6^4 (power,ts) keys and all DAGs on 5 nodes x \
+         relabelings x 96 key vectors for lexicographical_topological_sort vs naive Kahn. state = one history / one sort input; transition = one \
+         real resolve / sort call; non-trivial = merge of non-identical state sets"
     ));
     report.assume("reference = DESIGN.md Appendix A.4 with the real auth_check as predicate (C08 checks the predicate)");
     report.assume("state before an event with two prev events is the reference resolution of the two states");
     report.require_outcomes("merge", 3);
     report.require_outcomes("toposort", 3);
 
-    // shards: (version, base room, first action)
-    let mut shards: Vec<(u8, bool, Action)> = vec![];
-    for &v in &versions {
-        for with_pl in [true, false] {
-            let h = History::base(v, with_pl);
-            for a in h.actions(&templates, &[0, 1, 2]) {
-                shards.push((v, with_pl, a));
+    let distinct_total = std::sync::Mutex::new(BTreeSet::<u64>::new());
+    for (templates, depth, ts_classes, triple_depth, versions, bases) in passes.iter().cloned() {
+        // shards: (version, base room, first action)
+        let mut shards: Vec<(u8, char, Action)> = vec![];
+        for &v in &versions {
+            for &kind in &bases {
+                let h = History::base_kind(v, kind);
+                for a in h.actions(&templates, &ts_classes) {
+                    shards.push((v, kind, a));
+                }
             }
         }
+        let ex = Explorer { report: &report, templates: templates.clone(), ts_classes: ts_classes.clone(), depth, triple_depth };
+        par_shards(&report, shards.len(), |i, t| {
+            let (v, kind, a) = shards[i];
+            let h = History::base_kind(v, kind);
+            let mut distinct = BTreeSet::new();
+            if let Some(next) = h.apply(a) {
+                ex.visit(&next, t, &mut distinct);
+            }
+            distinct_total.lock().unwrap().extend(distinct);
+        });
     }
-    let distinct_total = std::sync::Mutex::new(BTreeSet::<u64>::new());
-    let ex = Explorer { report: &report, templates: templates.clone(), ts_classes: vec![0, 1, 2], depth, triple_depth };
-    par_shards(&report, shards.len(), |i, t| {
-        let (v, with_pl, a) = shards[i];
-        let h = History::base(v, with_pl);
-        if i == 0 {
-            t.states += 1; // the base itself
-        }
-        let mut distinct = BTreeSet::new();
-        if let Some(next) = h.apply(a) {
-            ex.visit(&next, t, &mut distinct);
-        }
-        distinct_total.lock().unwrap().extend(distinct);
-    });
     report.set("distinct_histories_up_to_event_ids", json!(distinct_total.lock().unwrap().len()));
-    report.set("depth", json!(depth));
-    report.set("versions", json!(versions));
+    report.set("passes", json!(passes));
     sort_family(&report, args.tier);
     let _ = resolve_ref;
     report.finish()
